@@ -59,6 +59,8 @@ Args == {X, Bn("sub", X, Two), Bn("sub", X, A), Y, Bn("mul", Two, X)}
 Base == {Rs(f, u) : f \in RsIds, u \in Args}
 Single == Base \cup {Bn("mul", A, b) : b \in Base} \cup {Bn("add", b, Y) : b \in Base} \cup {Bn("sub", X, b) : b \in Base}
           \cup {Neg(b) : b \in Base} \cup {Bn("mul", b, Fn("exp", Neg(Y))) : b \in Base}
+          \* limits that are symbolic quotients (finite, but not provably so without assumptions on the divisor)
+          \cup {Bn("div", b, A) : b \in Base} \cup {Bn("div", Bn("mul", A, b), Bn("add", One, Bn("mul", Y, Y))) : b \in Base}
 Small == {Rs(f, u) : f \in {"F1", "F2", "F6", "F7"}, u \in {X, Bn("sub", X, Two), Y}}
 Double(b1) == {Bn(o, b1, b2) : o \in {"add", "mul", "sub"}, b2 \in Small \ {b1}}
 Triple(b1) == {Bn("add", Bn("add", b1, Rs("F1", Bn("sub", X, Two))), Rs("F2", Y)), Bn("mul", b1, Bn("add", Rs("F6", Bn("sub", X, A)), Rs("F7", Y)))}
